@@ -332,6 +332,7 @@ func (p *asyncProducer) dispatcher() {
 			Logger.Println("Something tried to send a nil message, it was ignored.")
 			continue
 		}
+		verifPoint("disp.recv", msg)
 
 		if msg.flags&shutdown != 0 {
 			shuttingDown = true
@@ -410,6 +411,7 @@ func (p *asyncProducer) newTopicProducer(topic string) chan<- *ProducerMessage {
 
 func (tp *topicProducer) dispatch() {
 	for msg := range tp.input {
+		verifPoint("tp.recv", msg)
 		if msg.retries == 0 {
 			if err := tp.partitionMessage(msg); err != nil {
 				tp.parent.returnError(msg, err)
@@ -543,6 +545,7 @@ func (pp *partitionProducer) dispatch() {
 	}()
 
 	for msg := range pp.input {
+		verifPoint("pp.recv", msg, pp.highWatermark)
 		if pp.brokerProducer != nil && pp.brokerProducer.abandoned != nil {
 			select {
 			case <-pp.brokerProducer.abandoned:
@@ -626,6 +629,7 @@ func (pp *partitionProducer) flushRetryBuffers() {
 	Logger.Printf("producer/leader/%s/%d state change to [flushing-%d]\n", pp.topic, pp.partition, pp.highWatermark)
 	for {
 		pp.highWatermark--
+		verifPoint("pp.flush", pp.topic, pp.partition, pp.highWatermark)
 
 		if pp.brokerProducer == nil {
 			if err := pp.updateLeader(); err != nil {
@@ -693,6 +697,7 @@ func (p *asyncProducer) newBrokerProducer(broker *Broker) *brokerProducer {
 	go withRecover(func() {
 		for set := range bridge {
 			request := set.buildRequest()
+			verifPoint("bp.send", broker.ID())
 
 			response, err := broker.Produce(request)
 
@@ -754,6 +759,7 @@ func (bp *brokerProducer) run() {
 			if msg == nil {
 				continue
 			}
+			verifPoint("bp.recv", msg, bp.broker.ID())
 
 			if msg.flags&syn == syn {
 				Logger.Printf("producer/broker/%d state change to [open] on %s/%d\n",
@@ -875,6 +881,7 @@ func (bp *brokerProducer) rollOver() {
 }
 
 func (bp *brokerProducer) handleResponse(response *brokerProducerResponse) {
+	verifPoint("bp.resp", bp.broker.ID(), response.err)
 	if response.err != nil {
 		bp.handleError(response.set, response.err)
 	} else {
@@ -974,6 +981,7 @@ func (bp *brokerProducer) handleSuccess(sent *produceSet, response *ProduceRespo
 
 func (p *asyncProducer) retryBatch(topic string, partition int32, pSet *partitionSet, kerr KError) {
 	Logger.Printf("Retrying batch for %v-%d because of %s\n", topic, partition, kerr)
+	verifPoint("rb.start", topic, partition)
 	produceSet := newProduceSet(p)
 	produceSet.msgs[topic] = make(map[int32]*partitionSet)
 	produceSet.msgs[topic][partition] = pSet
@@ -1035,6 +1043,7 @@ func (p *asyncProducer) retryHandler() {
 			select {
 			case msg = <-p.retries:
 			case p.input <- buf.Peek().(*ProducerMessage):
+				verifPoint("rh.deq")
 				buf.Remove()
 				continue
 			}
